@@ -212,6 +212,29 @@ func runRecords(out string, seed int64, n int) {
 			s.addEnc("request", fmt.Sprintf("LRequest %d %d %d %d %s %s", hv, req.Key, req.Version, req.CorrelationID, w1.CoqBytes([]byte(req.ClientID)), w1.CoqBytes(req.Body)), empty, rres, 0, true)
 		}
 	}
+	// every request type has header version >= 1 (request.decode reads a client id unconditionally, request.encode
+	// writes it only for header version >= 1: the asymmetry is unobservable as long as this holds)
+	{
+		var mon *cf.Monitor
+		for key := int16(0); key < 80 && mon == nil; key++ {
+			for v := int16(0); v < 16; v++ {
+				if sarama.VerifHeaderVersion(key, v) == 0 {
+					mon = &cf.Monitor{Signature: fmt.Sprintf("request:header-version-0:key%d", key), What: fmt.Sprintf("request key %d version %d has header version 0: request.decode would read a client id that request.encode does not write", key, v)}
+					break
+				}
+			}
+		}
+		hdr := []byte{0, 0, 0, 9, 0, 0, 0, 7, 0}
+		for _, ver := range []int{0, 1} {
+			dres := sarama.VerifDecodeValue("resphdr", hdr, 0, ver, nil)
+			val := "None"
+			if dres.Status == 0 {
+				val = cf.Some(fmt.Sprintf("(DResp %d %d)", dres.Length, dres.Corr))
+			}
+			term := fmt.Sprintf("{| d2_kind := KRespHeader %d; d2_buf := %s; d2_start := 0; d2_tab := []; d2_status := %d; d2_off := %d; d2_val := %s |}", ver, w1.CoqBytes(hdr), dres.Status, dres.Off, val)
+			s.wd.Add(term, cf.Sidecar{Case: map[string]interface{}{"kind": "resphdr", "version": ver, "status": dres.Status}, Kind: "decode-resphdr", Nontrivial: true, Monitor: mon})
+		}
+	}
 	s.we.Close()
 	s.wd.Close()
 }
